@@ -494,3 +494,44 @@ func TestVerifC18(t *testing.T) {
 		},
 		[]string{"no lookup on a cache after its Release (contract)", "scheduling points are the lock / waitgroup operations of the sync shim plus one point inside every loader; atomics are not scheduling points"})
 }
+
+// TestVerifC18Race is the free-running add-on pass: the interleaving scenarios' bodies run as plain
+// goroutines (no scheduler; the shim then spins on real mutexes) in a binary built with -race. It is
+// sampling and declared as such; a data race report or an oracle failure is turned into a violation by
+// the driver.
+func TestVerifC18Race(t *testing.T) {
+	rounds := 300
+	if os.Getenv("VERIF_TIER") == "thorough" {
+		rounds = 3000
+	}
+	total := 0
+	for _, sc := range c18Scenarios() {
+		for i := 0; i < rounds; i++ {
+			_, bodies, final := sc.mk()
+			done := make(chan string, len(bodies))
+			for _, b := range bodies {
+				b := b
+				go func() {
+					msg := ""
+					defer func() {
+						if p := recover(); p != nil {
+							msg = fmt.Sprintf("panic: %v", p)
+						}
+						done <- msg
+					}()
+					b()
+				}()
+			}
+			for range bodies {
+				if m := <-done; m != "" {
+					t.Errorf("FREE-RUN-FAILURE scenario=%q round=%d: %s", sc.name, i, m)
+				}
+			}
+			if v := final(); v != "" {
+				t.Errorf("FREE-RUN-FAILURE scenario=%q round=%d: %s", sc.name, i, v)
+			}
+			total++
+		}
+	}
+	fmt.Printf("RACE-PASS rounds_per_scenario=%d executions=%d\n", rounds, total)
+}
